@@ -89,26 +89,30 @@ def extract():
         "driver.ml", "-o", "driver"], out, 600, stage="ocaml")
 
 
-def harness(release=False):
+def harness(release=False, features=None):
     h = os.path.join(VERIF, "harness")
     lock = os.path.join(h, "Cargo.lock")
     src = os.path.join(REPO, "Cargo.lock")
     if os.path.exists(src) and (not os.path.exists(lock)):
         shutil.copy(src, lock)
     cmd = ["cargo", "build", "--offline"] + (["--release"] if release else [])
-    env = {"CARGO_TARGET_DIR": os.path.join(BUILD, "cargo"), "RUSTFLAGS": "--cfg " + GUARD}
+    target = os.path.join(BUILD, "cargo")
+    if features:
+        cmd += ["--features", features]
+        target = os.path.join(BUILD, "cargo-" + features)
+    env = {"CARGO_TARGET_DIR": target, "RUSTFLAGS": "--cfg " + GUARD}
     return sh(cmd, h, 1500, env=env, stage="cargo")
 
 
-def build_all(coq_targets=None, release=False, log=None):
+def build_all(coq_targets=None, release=False, log=None, features=None):
     t0 = time.time()
     with Lock():
         generate()
         coq(coq_targets)
         extract()
-        harness(False)
+        harness(False, features)
         if release:
-            harness(True)
+            harness(True, features)
     return time.time() - t0
 
 
